@@ -64,3 +64,9 @@ package project
 //@   modifies heap
 // CleanPath only computes a string.
 //@ func project.CleanPath
+
+// Every value written to the file is encoded by the TOML library (which is what escapes quotes and
+// control characters): there is no hand-written shortcut around it.
+//@ func project.encodeValue variant through-toml
+//@   ensures every-value-goes-through-the-toml-encoder: n_tomlenc == old(n_tomlenc) + 1
+//@   modifies heap, n_tomlenc
